@@ -305,6 +305,7 @@ class Interp:
 
     def __init__(self, repo, number=None, extra_builtins=None, max_steps=5_000_000):
         self.repo = repo
+        _ENUM_REPO[0] = repo
         self.extra = dict(extra_builtins or {})
         self.depth = 0
         self.steps = 0
@@ -347,6 +348,53 @@ class Interp:
 
     def eval_expr(self, node, env, file="?", mi=None):
         fr = _Frame(self, env, file, mi, None)
+        return fr.ev(node)
+
+    def descriptor_for(self, ci, name):
+        """opt-in (model_descriptors): the data descriptor object behind the class attribute `name` (a class-level
+        `name = SomeClass(...)` whose class defines __set__), built once per class attribute by interpreting its constructor
+        and __set_name__; None when the attribute is not a descriptor"""
+        cache = self.__dict__.setdefault("_descriptors", {})
+        ce, owner = self.repo.class_attr(ci, name)
+        if ce is None or not isinstance(ce, ast.Call):
+            return None
+        key = (owner.qualname, name)
+        if key in cache:
+            return cache[key]
+        cache[key] = None
+        try:
+            fr = _Frame(self, {}, owner.file, owner.module, None)
+            cls = fr.ev(ce.func)
+        except Uninterpretable:
+            return None
+        if not isinstance(cls, ClassInfo) or self.repo.lookup_method(cls, "__set__") is None:
+            return None
+        desc = XObj(cls, {})
+        init = self.repo.lookup_method(cls, "__init__")
+        fr = _Frame(self, {}, owner.file, owner.module, None)
+        args = [fr.ev(a) for a in ce.args]
+        kwargs = {k.arg: fr.ev(k.value) for k in ce.keywords}
+        if init is not None:
+            self.call_function(init, args, kwargs, self_obj=desc)
+        sn = self.repo.lookup_method(cls, "__set_name__")
+        if sn is not None:
+            self.call_function(sn, [owner, name], {}, self_obj=desc)
+        cache[key] = desc
+        return desc
+
+    def eval_class_attr(self, owner, node):
+        """the value of a class-level assignment; bare names in it that are sibling class attributes (a table derived from
+        another table of the class body) resolve to those attributes"""
+        interp = self
+
+        class _ClassEnv:
+            def get(self_, name):
+                ce, own = interp.repo.class_attr(owner, name)
+                if ce is None or ce is node:
+                    raise KeyError(name)
+                return interp.eval_class_attr(own, ce)
+
+        fr = _Frame(self, _ChainEnv({}, _ClassEnv()), owner.file, owner.module, None)
         return fr.ev(node)
 
     # ------------------------------------------------------------------
@@ -655,6 +703,11 @@ class _Frame:
             obj = self.ev(t.value)
             if isinstance(obj, XObj):
                 name = self.mangle(obj, t.attr)
+                if getattr(self.I, "model_descriptors", False) and not name.startswith("__"):
+                    d = self.I.descriptor_for(obj.cls, name)
+                    if d is not None:
+                        self.I.call_function(self.I.repo.lookup_method(d.cls, "__set__"), [obj, v], {}, self_obj=d)
+                        return
                 setter = self.I.repo.lookup_setter(obj.cls, name) if name not in obj.attrs else None
                 if setter is not None:
                     # a property with a setter is a data descriptor: the assignment runs the setter
@@ -1152,6 +1205,14 @@ class _Frame:
         name = attr
         if attr.startswith("__") and not attr.endswith("__") and cls_ctx is not None:
             name = cls_ctx.mangle(attr)
+        if name == "__dict__":
+            return obj.attrs
+        if getattr(self.I, "model_descriptors", False) and not name.startswith("__"):
+            d = self.I.descriptor_for(obj.cls, name)
+            if d is not None:
+                g = self.I.repo.lookup_method(d.cls, "__get__")
+                if g is not None:
+                    return self.I.call_function(g, [obj, obj.cls], {}, self_obj=d)
         if name in obj.attrs:
             return obj.attrs[name]
         f = self.I.repo.lookup_method(obj.cls, name)
@@ -1166,7 +1227,7 @@ class _Frame:
             return nc
         ce, owner = self.I.repo.class_attr(obj.cls, name)
         if ce is not None:
-            return self.I.eval_expr(ce, {}, owner.file, owner.module)
+            return self.I.eval_class_attr(owner, ce)
         if getattr(self.I, "attr_try_depth", 0) > 0 and name.startswith("_") and "__" in name[1:] and name != attr:
             raise XRaise("AttributeError", f"'{obj.cls.name}' object has no attribute '{name}'")
         raise self.bad(f"attribute {obj.cls.name}.{attr} is not modelled", n)
@@ -1184,7 +1245,7 @@ class _Frame:
             return nc
         ce, owner = self.I.repo.class_attr(ci, attr)
         if ce is not None:
-            return self.I.eval_expr(ce, {}, owner.file, owner.module)
+            return self.I.eval_class_attr(owner, ce)
         raise self.bad(f"class attribute {ci.name}.{attr}", n)
 
     # -- calls ----------------------------------------------------------
@@ -1252,6 +1313,8 @@ class _Frame:
             return fn(*args, **kwargs)
         if isinstance(fn, FuncInfo):
             return self.I.call_function(fn, args, kwargs)
+        if fn in (list, tuple, set, sorted, len) and len(args) == 1 and isinstance(args[0], ClassInfo) and args[0].is_enum():
+            args = [_enum_iter(args[0])]  # list(EnumClass): its members in definition order
         if isinstance(fn, XObj):
             f = self.I.repo.lookup_method(fn.cls, "__call__")
             if f is None:
@@ -1259,6 +1322,8 @@ class _Frame:
             return self.I.call_function(f, args, kwargs, self_obj=fn)
         if isinstance(fn, _NpAttr):
             return self.np_call(fn.path, args, kwargs, n)
+        if isinstance(fn, Opaque) and fn.tag in ("import:copy.copy", "import:copy.deepcopy") and len(args) == 1:
+            return _py_copy(args[0], deep=fn.tag.endswith("deepcopy"))
         if isinstance(fn, ClassInfo):
             if fn.is_enum():
                 mem = self.I.repo.enum_members(fn.qualname)
@@ -1266,6 +1331,9 @@ class _Frame:
                     if args and (v == args[0] or (isinstance(args[0], EnumVal) and args[0].name == k)):
                         return EnumVal(fn, k, v)
                 raise XRaise("ValueError", f"{args[0]!r} is not a valid {fn.name}")
+            if fn.base_exprs == ["str"] and not fn.methods and len(args) == 1 and not kwargs and isinstance(args[0], (str, EnumVal)):
+                # a bare subclass of str (class ProblemType(str): pass): the string itself
+                return str(args[0].value) if isinstance(args[0], EnumVal) else args[0]
             if fn.qualname in getattr(self.I, "constructible", ()):
                 # opt-in: plain instantiation (object.__new__ + the class's own __init__)
                 obj = XObj(fn, {})
@@ -1274,6 +1342,8 @@ class _Frame:
                     self.I.call_function(init, args, kwargs, self_obj=obj)
                 return obj
             raise self.bad(f"construction of {fn.name} is not modelled", n)
+        if fn is float and len(args) == 1 and not kwargs and type(args[0]) is Fraction and getattr(self.I, "exact_float", False):
+            return args[0]  # opt-in: exact arithmetic has no float kind, float(7/3) stays 7/3
         if fn is float and len(args) == 1 and not kwargs and (type(args[0]).__name__ in ("Poly", "Rat", "Lin") or (isinstance(args[0], XArray) and args[0].size == 1)):
             # float(x) of a symbolic / one-entry exact value: the value itself (exact arithmetic has no float kind)
             return args[0].data[0] if isinstance(args[0], XArray) else args[0]
@@ -1314,7 +1384,28 @@ class _Bound:
     def __call__(self, *args, **kwargs):
         if self.finfo.is_static() or self.selfobj is None:
             return self.I.call_function(self.finfo, args, kwargs)
+        if getattr(self.I, "model_decorators", False) and self.finfo.is_cached() and isinstance(self.selfobj, XObj):
+            return self._memoised(args, kwargs)
         return self.I.call_function(self.finfo, args, kwargs, self_obj=self.selfobj)
+
+    def _memoised(self, args, kwargs):
+        """opt-in (end-to-end scenarios): a method decorated with the repository's memoising decorator is called through the
+        decorator's OWN source (Utilities._cache.cache_computed_values is interpreted: key, store, lookup)."""
+        I, fi = self.I, self.finfo
+        deco = I.repo.func("EasyFEA.Utilities._cache.cache_computed_values")
+
+        class _Raw:
+            _xeval_attrs = ("__name__",)
+            __name__ = fi.name
+
+            def __call__(_s, obj, *a, **k):
+                return I.call_function(fi, a, k, self_obj=obj)
+
+        wrappers = I.__dict__.setdefault("_memo_wrappers", {})
+        w = wrappers.get(fi.qualname)
+        if w is None:
+            w = wrappers[fi.qualname] = I.call_function(deco, [_Raw()])
+        return w(self.selfobj, *args, **kwargs)
 
     def __repr__(self):
         return f"<bound {self.finfo.qualname}>"
@@ -2383,6 +2474,47 @@ def _py_setattr(o, n, v):
         raise AnalysisError(f"setattr on {type(o).__name__}")
 
 
+def _py_copy(x, deep=False, memo=None):
+    """copy.copy / copy.deepcopy of the values the interpreter carries"""
+    memo = {} if memo is None else memo
+    if id(x) in memo:
+        return memo[id(x)]
+    if isinstance(x, XArray):
+        out = type(x)(x.shape, list(x.data), x.dtype) if type(x).__name__ in ("XArray", "FeV", "XFe") else x.copy()
+        memo[id(x)] = out
+        return out
+    if isinstance(x, XObj):
+        out = XObj(x.cls, {})
+        memo[id(x)] = out
+        out.attrs.update({k: (_py_copy(v, True, memo) if deep else v) for k, v in x.attrs.items()})
+        return out
+    if isinstance(x, list):
+        out = []
+        memo[id(x)] = out
+        out.extend((_py_copy(v, True, memo) if deep else v) for v in x)
+        return out
+    if isinstance(x, dict):
+        out = {}
+        memo[id(x)] = out
+        out.update({k: (_py_copy(v, True, memo) if deep else v) for k, v in x.items()})
+        return out
+    if isinstance(x, tuple) and deep:
+        return tuple(_py_copy(v, True, memo) for v in x)
+    if isinstance(x, set):
+        return set(x)
+    return x
+
+
+_ENUM_REPO = [None]
+
+
+def _enum_iter(x):
+    """iteration over an Enum class of the repository: its members in definition order"""
+    if isinstance(x, ClassInfo) and x.is_enum() and _ENUM_REPO[0] is not None:
+        return [EnumVal(x, k, v) for k, v in _ENUM_REPO[0].enum_members(x.qualname).items()]
+    return x
+
+
 _PY_BUILTINS = {
     "len": _py_len,
     "range": _py_range,
@@ -2396,8 +2528,9 @@ _PY_BUILTINS = {
     "round": round,
     "divmod": divmod,
     "frozenset": frozenset,
+    "callable": lambda o: isinstance(o, (Closure, _Bound, FuncInfo)) or (callable(o) and not isinstance(o, (XArray, XObj, Opaque))),
     "getattr": lambda o, n, d=None: getattr(o, n, d) if not isinstance(o, (XObj,)) else o.attrs.get(n, d),
-    "hasattr": lambda o, n: (n in o.attrs or any(n in c.methods or n in c.class_attrs for c in o.cls.mro)) if isinstance(o, XObj) else hasattr(o, n),
+    "hasattr": lambda o, n: (n == "__class__" or n in o.attrs or any(n in c.methods or n in c.class_attrs for c in o.cls.mro)) if isinstance(o, XObj) else hasattr(o, n),
     "setattr": _py_setattr,
     "complex": complex,
     "next": lambda it, *d: next(it, *d),
@@ -2428,3 +2561,49 @@ _PY_BUILTINS = {
     "TypeError": "TypeError",
     "Exception": "Exception",
 }
+
+
+def _np_linalg_inv(a):
+    """np.linalg.inv on one matrix or a stack of matrices: exact Gauss-Jordan over the field of the entries"""
+    from .xsparse import solve_dense, SingularSystem
+
+    a = XArray.from_nested(a)
+    if a.ndim < 2 or a.shape[-1] != a.shape[-2]:
+        raise XRaise("LinAlgError", "Last 2 dimensions of the array must be square")
+    n = a.shape[-1]
+    lead = a.shape[:-2]
+    cnt = 1
+    for s in lead:
+        cnt *= s
+    flat = a.reshape((cnt, n, n))
+    out = []
+    eye_ = [[Q(1) if i == j else Q(0) for j in range(n)] for i in range(n)]
+    for k in range(cnt):
+        rows = [[flat[k, i, j] for j in range(n)] for i in range(n)]
+        try:
+            X = solve_dense(rows, eye_)
+        except SingularSystem:
+            raise XRaise("LinAlgError", "Singular matrix")
+        out.extend(v for row in X for v in row)
+    return XArray(tuple(lead) + (n, n), out)
+
+
+def _np_linalg_solve(a, b):
+    from .xsparse import solve_dense, SingularSystem
+
+    a, b = XArray.from_nested(a), XArray.from_nested(b)
+    if a.ndim != 2:
+        raise Uninterpretable("np.linalg.solve on a stack of matrices is not modelled")
+    n = a.shape[0]
+    rows = [[a[i, j] for j in range(n)] for i in range(n)]
+    try:
+        if b.ndim == 1:
+            return XArray((n,), solve_dense(rows, list(b.data)))
+        X = solve_dense(rows, [[b[i, k] for k in range(b.shape[1])] for i in range(n)])
+    except SingularSystem:
+        raise XRaise("LinAlgError", "Singular matrix")
+    return XArray((n, b.shape[1]), [v for row in X for v in row])
+
+
+_NP_FUNCS.setdefault("linalg.inv", _np_linalg_inv)
+_NP_FUNCS.setdefault("linalg.solve", _np_linalg_solve)
